@@ -42,7 +42,7 @@ fn plan(ctx: &mut CheckCtx, k: f64) {
             ctx.run::<s1_filters::S1>(n(300_000));
         }
         "C14" => {
-            ctx.run::<s1_filters::S1>(n(300_000));
+            ctx.run::<s1_filters::S1>(n(150_000));
         }
         _ => {
             eprintln!("HARNESS ERROR: property {} has no check (not applicable or not built)", ctx.prop);
@@ -83,6 +83,51 @@ fn replay(path: &str) -> i32 {
     }
 }
 
+/// Claimed properties (everything `plan` knows).
+const CLAIMED: &[&str] = &["C01", "C12", "C13", "C14"];
+
+/// Proves determinism on a sample: every claimed check is run in separate processes with the same
+/// seed at 1, 5 and 16 workers (and the 16-worker one twice); the event-log hashes (per-run
+/// signatures, step counts and verdicts, combined order-independently) must agree.
+fn selftest_determinism() -> i32 {
+    let exe = std::env::current_exe().expect("current_exe");
+    let tmp = format!("{}/replays/tmp/selftest-{}", verif_dir(), std::process::id());
+    let _ = std::fs::create_dir_all(&tmp);
+    let mut bad = 0;
+    let mut runs_total = 0u64;
+    for prop in CLAIMED {
+        let mut hashes = vec![];
+        for (seed, workers) in [(7u64, 1usize), (7, 5), (7, 16), (7, 16)] {
+            let out = std::process::Command::new(&exe)
+                .args([prop, "--scale", "0.02", "--workers", &workers.to_string()])
+                .env("VERIF_SEED", seed.to_string())
+                .env("VERIF_DIR", &tmp)
+                .output()
+                .expect("spawn pdsim");
+            let text = String::from_utf8_lossy(&out.stdout).to_string();
+            let last = text.lines().last().unwrap_or("").to_string();
+            let h = last.split_whitespace().find(|w| w.starts_with("log=")).unwrap_or("log=?").to_string();
+            if let Some(r) = last.split_whitespace().find(|w| w.starts_with("runs=")) {
+                runs_total += r[5..].parse::<u64>().unwrap_or(0);
+            }
+            if out.status.code() == Some(2) || h == "log=?" {
+                eprintln!("HARNESS ERROR: selftest child for {} failed: {}", prop, text);
+                bad += 1;
+            }
+            hashes.push(h);
+        }
+        let same = hashes.iter().all(|h| *h == hashes[0]);
+        println!("determinism {}: {} {}", prop, hashes[0], if same { "ok (1/5/16/16 workers agree)" } else { "MISMATCH" });
+        if !same {
+            eprintln!("HARNESS ERROR: event-log hashes differ for {}: {:?}", prop, hashes);
+            bad += 1;
+        }
+    }
+    let _ = std::fs::remove_dir_all(&tmp);
+    println!("determinism self-test: {} seeded runs compared across processes and worker counts, {} mismatches", runs_total, bad);
+    if bad == 0 { 0 } else { 2 }
+}
+
 fn main() {
     install_panic_hook();
     let args: Vec<String> = std::env::args().skip(1).collect();
@@ -91,6 +136,7 @@ fn main() {
     }
     let code = match args[0].as_str() {
         "replay" => replay(args.get(1).map(|s| s.as_str()).unwrap_or_else(|| usage())),
+        "selftest-determinism" => selftest_determinism(),
         p => {
             let prop = prop_static(p);
             let mut tier = match std::env::var("VERIF_TIER").ok().as_deref() {
